@@ -974,6 +974,11 @@ class Engine:
                     if isinstance(add, VSeq):
                         env[nm] = self.seq_concat(recv, add)
                         return VNone()
+                if attr == "sort":
+                    rev = kw.get("reverse")
+                    reverse = bool(rev is not None and z3.is_true(z3.simplify(rev.t)))
+                    env[nm] = self.sorted_model(recv, kw.get("key"), reverse, pc, line)
+                    return VNone()
                 if attr == "pop" and not args:
                     self.may_raise("IndexError", recv.len <= 0, pc, line, "pop-from-empty")
                     v = seq_read(recv, recv.len - 1)
